@@ -74,34 +74,51 @@ blocks; switches, the four file names and the per-number file-name map are user 
 def Inst.unload (i : Inst) (ok : Bool) : Inst :=
   { i with cur := 1, selFileOn := [(1, false)], selStrOn := [(1, false)], loaded := ok, engSel := [] }
 
+inductive PunchChoice where
+  | file (f : String) | dflt | keep
+
 /-- file-name rule of `IPhreeqc::punch_open(n)`: a `-file` name given in the block wins; otherwise an empty or missing
-entry gets the default name, which embeds the user number and the instance id -/
+entry gets the default name; otherwise the entry is kept -/
+def punchChoice (given : Option String) (missing : Bool) : PunchChoice :=
+  match given with
+  | some f => if f.isEmpty then (if missing then .dflt else .keep) else .file f
+  | none => if missing then .dflt else .keep
+
+/-- `punch_open(n)` on the per-number file-name map; the default name embeds the user number and the instance id -/
 def Inst.punchName (i : Inst) (n : Int) : Inst :=
-  match (i.engSel.lookup n).join with
-  | some f => if f.isEmpty then
-                (if ((i.selFileName.lookup n).getD "").isEmpty then { i with selFileName := setAssoc i.selFileName n (selName n i.id) } else i)
-              else { i with selFileName := setAssoc i.selFileName n f }
-  | none => if ((i.selFileName.lookup n).getD "").isEmpty then { i with selFileName := setAssoc i.selFileName n (selName n i.id) } else i
+  match punchChoice (i.engSel.lookup n).join ((i.selFileName.lookup n).getD "").isEmpty with
+  | .file f => { i with selFileName := setAssoc i.selFileName n f }
+  | .dflt => { i with selFileName := setAssoc i.selFileName n (selName n i.id) }
+  | .keep => i
+
+/-- the engine's block list after (re)defining number `n`: only a redefinition of number 1 without `-file` inherits the
+earlier name (`read_selected_output` copies the old block for `n_user == 1` only) -/
+def newEng (eng : List (Int × Option String)) (n : Int) (file : Option String) : List (Int × Option String) :=
+  (eng.filter (fun (p : Int × Option String) => p.1 ≠ n)) ++
+    [(n, match file with
+         | some f => some f
+         | none => if n = 1 then (eng.lookup n).join else none)]
+
+/-- blocks re-opened at the start of a run: file switch on (and not the block just defined, which is open already) -/
+def reopenKeys (eng : List (Int × Option String)) (fileOn : List (Int × Bool)) (skip : Option Int) : List Int :=
+  (eng.map (fun (p : Int × Option String) => p.1)).filter (fun k => some k != skip && (fileOn.lookup k).getD false)
+
+def Inst.withEng (i : Inst) (e : List (Int × Option String)) : Inst := { i with engSel := e }
 
 /-- a `Run*` call whose input is one `SELECTED_OUTPUT n` block (with options, so that it counts as a new definition) and an
-optional `-file` name: the block is stored (a redefinition without `-file` inherits the earlier name), its file is opened
+optional `-file` name: the block is stored (only a redefinition of number 1 without `-file` inherits the earlier name:
+`read_selected_output` copies the old block for `n_user == 1` only), its file is opened
 through `punch_open`; then every block whose file switch is on and whose stream is closed is re-opened the same way.
 Without a loaded database the call fails before reading anything. Result = number of errors. -/
 def Inst.defSel (i : Inst) (n : Int) (file : Option String) : Inst × Int :=
   if !i.loaded then (i, 1) else
-  let inherited : Option String := match file with
-    | some f => some f
-    | none => (i.engSel.lookup n).join
-  let i1 : Inst := { i with engSel := (i.engSel.filter (fun (p : Int × Option String) => p.1 ≠ n)) ++ [(n, inherited)] }
-  let i2 : Inst := i1.punchName n
-  let reopened : List Int := (i2.engSel.map (fun (p : Int × Option String) => p.1)).filter (fun k => k ≠ n && (i2.selFileOn.lookup k).getD false)
-  (reopened.foldl (fun j k => j.punchName k) i2, 0)
+  ((n :: reopenKeys (newEng i.engSel n file) i.selFileOn (some n)).foldl (fun j k => j.punchName k)
+     (i.withEng (newEng i.engSel n file)), 0)
 
 /-- a `Run*` call whose input defines nothing: only the re-opening of the files of existing blocks happens -/
 def Inst.rerun (i : Inst) : Inst × Int :=
   if !i.loaded then (i, 1) else
-  let reopened : List Int := (i.engSel.map (fun (p : Int × Option String) => p.1)).filter (fun k => (i.selFileOn.lookup k).getD false)
-  (reopened.foldl (fun j k => j.punchName k) i, 0)
+  ((reopenKeys i.engSel i.selFileOn none).foldl (fun j k => j.punchName k) i, 0)
 
 /-- API-level operations (the C functions of IPhreeqc.h restricted to the settings store) -/
 inductive Call where
@@ -144,5 +161,83 @@ def badResult : Call → Res
 
 /-- the C API: look the instance up, forward, or return the invalid-instance result -/
 def capi (r : Reg Inst) (id : Int) (c : Call) : Reg Inst × Res := r.apply id (fun i => i.call c) (badResult c)
+
+/-! ### The id enters results only through rendered default file names
+
+A *symbolic* copy of the store: names are either a default (not yet rendered) or a user string; no id anywhere. -/
+inductive SName where
+  | dflt (n : Nm) | dfltSel (k : Int) | user (s : String)
+deriving DecidableEq, Repr
+
+/-- the only place the id is used -/
+def SName.render (id : Nat) : SName → String
+  | .dflt .out => s!"phreeqc.{id}.out" | .dflt .err => s!"phreeqc.{id}.err"
+  | .dflt .log => s!"phreeqc.{id}.log" | .dflt .dump => s!"dump.{id}.out"
+  | .dfltSel k => selName k id
+  | .user s => s
+
+def SName.isEmptyS : SName → Bool
+  | .user s => s.isEmpty
+  | _ => false
+
+structure SInst where
+  sw : Sw → Bool
+  name : Nm → SName
+  cur : Int
+  selFileOn : List (Int × Bool)
+  selStrOn : List (Int × Bool)
+  selFileName : List (Int × SName)
+  loaded : Bool
+  engSel : List (Int × Option String)
+
+inductive SRes where
+  | int (v : Int) | name (n : SName)
+
+def SRes.render (id : Nat) : SRes → Res
+  | .int v => .int v
+  | .name n => .str (n.render id)
+
+def SInst.render (id : Nat) (s : SInst) : Inst :=
+  { id := id, sw := s.sw, name := fun n => (s.name n).render id, cur := s.cur, selFileOn := s.selFileOn,
+    selStrOn := s.selStrOn, selFileName := s.selFileName.map (fun p => (p.1, p.2.render id)), loaded := s.loaded,
+    engSel := s.engSel }
+
+def sfresh : SInst :=
+  { sw := fun s => match s with | .errStr => true | .errOn => true | _ => false,
+    name := fun n => .dflt n, cur := 1, selFileOn := [(1, false)], selStrOn := [(1, false)],
+    selFileName := [(1, .dfltSel 1)], loaded := false, engSel := [] }
+
+def SInst.punchName (i : SInst) (n : Int) : SInst :=
+  match punchChoice (i.engSel.lookup n).join (match i.selFileName.lookup n with | some x => x.isEmptyS | none => true) with
+  | .file f => { i with selFileName := setAssoc i.selFileName n (.user f) }
+  | .dflt => { i with selFileName := setAssoc i.selFileName n (.dfltSel n) }
+  | .keep => i
+
+def SInst.withEng (i : SInst) (e : List (Int × Option String)) : SInst := { i with engSel := e }
+
+def SInst.call (i : SInst) : Call → SInst × SRes
+  | .setSw s v => ({ i with sw := fun t => if t = s then v else i.sw t }, .int 0)
+  | .getSw s => (i, .int (b2i (i.sw s)))
+  | .setName n (some s) => (if s.isEmpty then i else { i with name := fun t => if t = n then .user s else i.name t }, .int 0)
+  | .setName _ none => (i, .int 0)
+  | .getName n => (i, .name (i.name n))
+  | .setCur n => if 0 ≤ n then ({ i with cur := n }, .int 0) else (i, .int (-3))
+  | .getCur => (i, .int i.cur)
+  | .setSelFileOn v => (if 0 ≤ i.cur then { i with selFileOn := setAssoc i.selFileOn i.cur v } else i, .int 0)
+  | .getSelFileOn => (i, .int (b2i ((i.selFileOn.lookup i.cur).getD false)))
+  | .setSelStrOn v => ({ i with selStrOn := setAssoc i.selStrOn i.cur v }, .int 0)
+  | .getSelStrOn => (i, .int (b2i ((i.selStrOn.lookup i.cur).getD false)))
+  | .setSelName (some s) => (if s.isEmpty then i else { i with selFileName := setAssoc i.selFileName i.cur (.user s) }, .int 0)
+  | .setSelName none => (i, .int 0)
+  | .getSelName => (i, .name ((i.selFileName.lookup i.cur).getD (.user "")))
+  | .unload ok => ({ i with cur := 1, selFileOn := [(1, false)], selStrOn := [(1, false)], loaded := ok, engSel := [] },
+                   .int (if ok then 0 else 1))
+  | .defSel n file =>
+    if !i.loaded then (i, .int 1) else
+    ((n :: reopenKeys (newEng i.engSel n file) i.selFileOn (some n)).foldl (fun j k => j.punchName k)
+       (i.withEng (newEng i.engSel n file)), .int 0)
+  | .rerun =>
+    if !i.loaded then (i, .int 1) else
+    ((reopenKeys i.engSel i.selFileOn none).foldl (fun j k => j.punchName k) i, .int 0)
 
 end PhreeqcVerif.Settings
